@@ -6,6 +6,7 @@ import warnings
 
 from stix2patterns.validator import run_validator
 
+from .. import registry
 from ..custom import _custom_object_builder
 from ..exceptions import (
     InvalidValueError, PropertyPresenceError, STIXDeprecationWarning,
@@ -861,6 +862,12 @@ def CustomObject(type='x-custom-type', properties=None, extension_name=None, is_
         )
 
         if extension_name:
+            if not extension_name.startswith('extension-definition--'):
+                raise ValueError(
+                    "Invalid extension name '%s': must be an extension "
+                    "definition identifier." % extension_name,
+                )
+
             @CustomExtension(type=extension_name, properties={})
             class NameExtension:
                 if is_sdo:
@@ -872,6 +879,14 @@ def CustomObject(type='x-custom-type', properties=None, extension_name=None, is_
             extension = extension.replace('-', '')
             NameExtension.__name__ = 'ExtensionDefinition' + extension
             cls.with_extension = extension_name
-        return _custom_object_builder(cls, type, _properties, '2.1', _DomainObject)
+        try:
+            return _custom_object_builder(cls, type, _properties, '2.1', _DomainObject)
+        except Exception:
+            if extension_name:
+                # the type was refused: don't leave its extension behind
+                registry.STIX2_OBJ_MAPS['2.1']['extensions'].pop(
+                    extension_name, None,
+                )
+            raise
 
     return wrapper
